@@ -109,12 +109,12 @@ class Residue():
     def residue_number(self) -> List[int]:
         if '_' in self._spline[0] and '$' not in self._spline[0]:
             _, suffix = self._spline[0].upper().split('_')
+            # TODO: implement _+ and _-
+            if suffix == '*':
+                # all residues:
+                return list(self.shx.residues.residue_numbers.keys())  # type: ignore
             if suffix.isdigit():
-                # TODO: implement _+, _- and _*
-                if '*' in suffix:
-                    return list(self.shx.residues.residue_numbers.keys())  # type: ignore
-                else:
-                    return [int(suffix)]
+                return [int(suffix)]
         if not self.residue_class:
             # Without a residue number or class on the instruction, residue 0 is addressed:
             return [0]
